@@ -13,7 +13,7 @@ from __future__ import annotations
 import json
 import random
 
-from . import common, rel, tlc
+from . import common, cum, rel, tlc
 
 TIERS = {
     "quick": dict(depth=2, sample=150, sim_num=40, sim_depth=3, nrows=6, maxcuts=3, layouts_deep=6),
@@ -136,6 +136,9 @@ def run(tier="quick", seed=0, replay_path=None):
                 for l in lays:
                     if l["known"] and (len(set(l["cuts"])) != len(l["cuts"]) or 0 in l["cuts"] or t["nrows"] in l["cuts"]):
                         l["known"] = False
+            if "mergeasof" in rel.ops_of(c["q"]):
+                # merge_asof refuses unknown divisions ("input must be sorted!"): every cut with known divisions, several layouts of the right table
+                lays = [{"cuts": cu, "known": True, "np2": n2} for cu in all_cuts if len(set(cu)) == len(cu) and 0 not in cu and t["nrows"] not in cu for n2 in (1, 2, 3)]
             cases.append({"q": c["q"], "sc": c["sc"], "dseed": rnd.randrange(4), "nrows": t["nrows"], "layouts": lays})
             if {"sort", "setindex"} & set(rel.ops_of(c["q"])):
                 # the same program on a table already ordered by k: presorted fast paths, equal keys across borders
@@ -196,4 +199,6 @@ def run(tier="quick", seed=0, replay_path=None):
     chk.assumptions += ["pandas (3.0.5) on the concatenated input is the definition of the expected value, as the property states",
                         "float64 columns with NaN as NULL; other dtypes are not part of this tier",
                         "head is requested with npartitions=-1; tail / partitions[...] have no pandas meaning and are excluded"]
+    if not replay_path:
+        chk.traces += cum.run_component(chk, tier)
     return chk.finish()
